@@ -1431,3 +1431,57 @@ Section StubSet.
       apply fold_refines. apply boundary_refines. unfold S. rewrite Hsk. by apply stub_sim.
   Qed.
 End StubSet.
+
+(** ** Refused operations *)
+
+Section Refusals.
+  Context (H : manifest → N) (Hp : cont → N).
+
+  (** A refused operation changes nothing: containers, user blocks, the loaded manifest, the
+      manifests on disk and the identifier supply are as before. *)
+  Lemma refused_ops_frame st o :
+    (mf_step H Hp st o).2 = false → (mf_step H Hp st o).1 = st.
+  Proof.
+    unfold mf_step.
+    destruct (match o with
+              | MCommit g => mf_commit H Hp false g st
+              | MCommitKw | MCommitRo => None
+              | MCreatePatch => mf_create_patch st
+              | MDiscard => mf_discard st
+              | MOps ops => Some (mf_ops ops st)
+              end); done.
+  Qed.
+
+  Lemma refused_keeps_linked st o :
+    mf_linked H st → (mf_step H Hp st o).2 = false → mf_linked H (mf_step H Hp st o).1.
+  Proof. intros Hl Hr. by rewrite refused_ops_frame. Qed.
+
+  (** Which operations are refused: on a committed record a further commit and a discard, on a
+      record with a writable container a new patch; a commit with an unknown keyword or through
+      a read-only handle always. *)
+  Lemma refusals st :
+    (mf_step H Hp st MCommitKw).2 = false ∧ (mf_step H Hp st MCommitRo).2 = false ∧
+    (committed st = true → ∀ g, (mf_step H Hp st (MCommit g)).2 = false) ∧
+    (committed st = true → (mf_step H Hp st MDiscard).2 = false) ∧
+    (committed st = false → (mf_step H Hp st MCreatePatch).2 = false).
+  Proof.
+    split; [done|]. split; [done|]. unfold mf_step, committed, mf_commit, mf_discard, mf_create_patch.
+    split; [|split].
+    - intros Hc g. destruct (r_stack st) as [|[n c] R]; [done|].
+      destruct (r_ubs st) as [|u us]; [done|]. destruct (r_disk st); [done|].
+      by destruct (Chain.hash u).
+    - intros Hc. unfold committed. by rewrite Hc.
+    - intros Hc. destruct (r_ubs st) as [|u us]; [done|]. by destruct (Chain.hash u).
+  Qed.
+
+  (** After every commit of a history, and after any sequence of refused operations issued
+      then, the manifest invariant holds. *)
+  Lemma linked_after_refused st os :
+    mf_linked H st → Forall (λ o, (mf_step H Hp st o).2 = false) os →
+    mf_linked H (foldl (λ s o, (mf_step H Hp s o).1) st os) ∧
+    foldl (λ s o, (mf_step H Hp s o).1) st os = st.
+  Proof.
+    intros Hl Hos. assert (foldl (λ s o, (mf_step H Hp s o).1) st os = st) as ->; [|done].
+    induction Hos as [|o os Ho _ IH]; [done|]. cbn [foldl]. by rewrite refused_ops_frame.
+  Qed.
+End Refusals.
